@@ -143,6 +143,16 @@ class Weaver:
         if 'pubfields' in opts:
             text = ex.publicise_fields(text, log)
         for o in opts:
+            if o.startswith('value=') and kind == 'const':
+                # R15: `const N: T = EXPR;` -> `exec const N: T ensures N == <value> { EXPR }`; Verus PROVES the
+                # stated value from the real initialiser (needed where the initialiser uses an exec-only
+                # operation such as `/` on a signed type)
+                mm = re.match(r'^(\s*(?:pub(?:\([^)]*\))?\s+)?)const\s+(\w+)\s*:\s*([^=]+?)\s*=\s*(.*?);\s*$', text, re.S)
+                if not mm:
+                    raise ex.ExtractError('R15: const %s has an unexpected shape' % name)
+                text = '%sexec const %s: %s\n    ensures %s == %s,\n{ %s }' % (mm.group(1), mm.group(2), mm.group(3), mm.group(2), o[6:], mm.group(4))
+                log.append('R15')
+        for o in opts:
             if o.startswith('derive+='):
                 # R6: the hand-written fmt::Debug impl is dropped; derive one instead (formatting only)
                 if '#[derive(' not in attrs:
@@ -256,6 +266,22 @@ class Weaver:
                 if k < 1 or k > len(heads):
                     raise ex.ExtractError('%s: loop %d not present (%d loops)' % (qual, k, len(heads)))
                 ins.append((heads[k - 1], '\n' + text + '\n' + indent + '    '))
+            elif kind == 'loopbody':
+                if heads is None:
+                    heads = ex.loop_heads(body)
+                k = int(arg)
+                if k < 1 or k > len(heads):
+                    raise ex.ExtractError('%s: loop %d not present (%d loops)' % (qual, k, len(heads)))
+                pos = heads[k - 1] + 1
+                # skip the R1 prologue `let P = P__; P__ += 1;`
+                mm = re.match(r'\s*let\s+(\w+)\s*=\s*(\w+)__;\s*\2__\s*\+=\s*1;', body[pos:])
+                if mm:
+                    pos += mm.end()
+                    # and the R2 element binding `let P = ARR[i];`
+                    mm2 = re.match(r'\s*let\s+[^=;]+=\s*[\w.]+\[\w+\];', body[pos:])
+                    if mm2:
+                        pos += mm2.end()
+                ins.append((pos, '\n' + text + '\n'))
             elif kind in ('before', 'after'):
                 lit = arg
                 cnt = body.count(lit)
